@@ -387,9 +387,6 @@ Qed.
 
 (* ---------- histories ---------- *)
 
-Definition redo_block (q : bool) (p : str) (sl : Z) (b : str) : list ev :=
-  ask q p sl b ++ [EPrint s_redo].
-
 Lemma loop_retry pv q p sl tys (junk_of : str -> list cell) vals good more bad :
   forall st,
   (forall b st, In b bad -> pv b tys st = PVReject (junk_of b ++ st)) ->
@@ -474,12 +471,6 @@ Proof.
 Qed.
 
 (* ---------- the whole run against spec_run ---------- *)
-
-Definition meets (r : ires) (s : sres) (st : list cell) : Prop :=
-  match s with
-  | SDone e v => exists e', r = IDone e' (v ++ st) /\ forall acc, norm_acc e' acc = norm_acc e acc
-  | SExhausted e => exists e', r = IExhausted e' st /\ forall acc, norm_acc e' acc = norm_acc e acc
-  end.
 
 Lemma meets_pre r s st pre pre' :
   (forall rest rest' acc, (forall acc', norm_acc rest acc' = norm_acc rest' acc') ->
@@ -569,4 +560,61 @@ Proof.
   intros H HL. split; [now apply push_vars_accept|]. split; [exact H|].
   apply (do_stores_spec targets vals st []).
   destruct (spec_values_length _ _ _ _ H). lia.
+Qed.
+
+(* ---------- witnesses of the two defects (computed) ---------- *)
+
+(* D29: "1_0,nan" for an INTEGER and a SINGLE variable *)
+Lemma accept_only_wellformed_refuted :
+  exists ts l st st', spec_accept true ts l = None /\ push_vars l (map ty_id ts) st = PVOk st'.
+Proof.
+  exists [VInt; VSingle], [49; 95; 48; 44; 110; 97; 110], [], [CI 10; CS FNaN].
+  split; vm_compute; reflexivity.
+Qed.
+
+(* D29b: "1e400" for a DOUBLE variable *)
+Lemma accept_overflow_refuted :
+  exists l st', spec_accept true [VDouble] l = None /\
+                push_vars l [ty_id VDouble] [] = PVOk st'.
+Proof.
+  exists [49; 101; 52; 48; 48], [CD (FInf false)]. split; vm_compute; reflexivity.
+Qed.
+
+(* D13: "x,5" for two INTEGER variables *)
+Lemma reject_no_effect_refuted :
+  exists tys l st st', push_vars l tys st = PVReject st' /\ st' <> st.
+Proof.
+  exists [1; 1], [120; 44; 53], [], [CI 5]. split; [vm_compute; reflexivity | discriminate].
+Qed.
+
+(* and its consequence for a whole statement: after "x,5" then "1,2" the
+   stack is not the one the accepted line alone leaves *)
+Lemma retry_state_refuted :
+  exists s bad good st,
+    i_tys s <> [] /\
+    spec_accept false (i_tys s) bad = None /\
+    ires_stack (exec_input [bad; good] (stack_at_io s st)) <>
+    ires_stack (exec_input [good] (stack_at_io s st)).
+Proof.
+  exists (stmt_of_form false FNone [VInt; VInt]), [120; 44; 53], [49; 44; 50], [].
+  split; [discriminate|]. split; [vm_compute; reflexivity|]. vm_compute. discriminate.
+Qed.
+
+(* the two clean cases at the level of the statement *)
+Lemma reject_no_effect_partial ts t fs f l rest s st :
+  i_tys s = ts ++ [t] ->
+  length (spec_fields l) <> length (i_tys s) \/
+  (spec_fields l = fs ++ [f] /\ spec_value false t f = None) ->
+  exec_input (l :: rest) (stack_at_io s st) =
+  i_pre (redo_block (i_question s) (i_prompt s) (flag (i_same_line s)) l)
+        (exec_input rest (stack_at_io s st)).
+Proof.
+  intros Hty H.
+  assert (Hne : i_tys s <> []) by (rewrite Hty; destruct ts; discriminate).
+  unfold exec_input. rewrite !exec_decode by exact Hne. cbn [input_loop].
+  assert (E : push_vars l (map ty_id (i_tys s)) st = PVReject st).
+  { destruct H as [H | [H1 H2]].
+    - apply reject_count_clean. now rewrite map_length.
+    - rewrite Hty. now apply (reject_last_clean ts t fs f). }
+  rewrite E. reflexivity.
 Qed.
